@@ -219,6 +219,8 @@ static void Tree_Assign(var self, var obj) {
   /* ask the source first: if it cannot answer (NULL) nothing is cleared */
   var ktype = implements_method(obj, Get, key_type) ? key_type(obj) : Ref;
   var vtype = implements_method(obj, Get, val_type) ? val_type(obj) : Ref;
+  method_at_offset(obj, Iter, offsetof(struct Iter, iter_init), "iter_init");
+  method_at_offset(obj, Get, offsetof(struct Get, get), "get");
 
   Tree_Clear(self);
   m->ktype = ktype;
